@@ -193,6 +193,9 @@ impl SimGuard {
         verif::set_clock(clock.map(|c| Box::new(SimClock(c)) as Box<dyn verif::Clock>));
         verif::set_hasher(Some(hasher));
         verif::set_swap_repair(false);
+        // which public entry point `diff_deadline` below goes through is part
+        // of the case (two bits of the hasher key)
+        ROUTE.with(|r| r.set(((hasher.1 >> 3) & 3) as u8));
         SimGuard { _private: () }
     }
 
@@ -579,4 +582,73 @@ pub fn draw_hasher(rng: &mut Rng, allow_degenerate: bool) -> (u8, u64) {
         *rng.pick(&[0u8, 0, 0, 3, 4])
     };
     (kind, rng.next())
+}
+
+thread_local! {
+    static ROUTE: std::cell::Cell<u8> = std::cell::Cell::new(0);
+    static ROUTE_USE: std::cell::Cell<[u64; 3]> = std::cell::Cell::new([0; 3]);
+}
+
+/// How often each route was taken since the last call: (dispatcher with a
+/// deadline argument, `algorithms::diff`, module-level functions).
+pub fn take_route_use() -> [u64; 3] {
+    ROUTE_USE.with(|r| r.replace([0; 3]))
+}
+
+/// The raw diff entry points of the crate behind one signature: the dispatcher
+/// `algorithms::diff_deadline` (routes 0 and 1), `algorithms::diff` when there
+/// is no deadline (route 2), or the functions of the algorithm's own module,
+/// `myers::diff` / `myers::diff_deadline` and so on (route 3).
+pub fn diff_deadline<Old, New, D>(
+    alg: similar::Algorithm,
+    d: &mut D,
+    old: &Old,
+    old_range: std::ops::Range<usize>,
+    new: &New,
+    new_range: std::ops::Range<usize>,
+    deadline: Option<std::time::Instant>,
+) -> Result<(), D::Error>
+where
+    Old: Index<usize> + ?Sized,
+    New: Index<usize> + ?Sized,
+    D: similar::algorithms::DiffHook,
+    Old::Output: std::hash::Hash + Eq + Ord,
+    New::Output: PartialEq<Old::Output> + std::hash::Hash + Eq + Ord,
+{
+    use similar::algorithms::{self, lcs, myers, patience};
+    use similar::Algorithm;
+    let route = ROUTE.with(|r| r.get());
+    let bump = |i: usize| {
+        ROUTE_USE.with(|r| {
+            let mut v = r.get();
+            v[i] += 1;
+            r.set(v);
+        })
+    };
+    match (route, deadline) {
+        (2, None) => {
+            bump(1);
+            algorithms::diff(alg, d, old, old_range, new, new_range)
+        }
+        (3, None) => {
+            bump(2);
+            match alg {
+                Algorithm::Myers => myers::diff(d, old, old_range, new, new_range),
+                Algorithm::Patience => patience::diff(d, old, old_range, new, new_range),
+                Algorithm::Lcs => lcs::diff(d, old, old_range, new, new_range),
+            }
+        }
+        (3, Some(_)) => {
+            bump(2);
+            match alg {
+                Algorithm::Myers => myers::diff_deadline(d, old, old_range, new, new_range, deadline),
+                Algorithm::Patience => patience::diff_deadline(d, old, old_range, new, new_range, deadline),
+                Algorithm::Lcs => lcs::diff_deadline(d, old, old_range, new, new_range, deadline),
+            }
+        }
+        _ => {
+            bump(0);
+            algorithms::diff_deadline(alg, d, old, old_range, new, new_range, deadline)
+        }
+    }
 }
